@@ -815,6 +815,12 @@ func (g *gen) layout(mode string) layout {
 	if g.r.Chance(1, 2) {
 		n = g.r.Intn(8)
 	}
+	large := mode != "broken" && g.r.Chance(1, 6)
+	if large {
+		// a large directory tree: more files than any batch / queue size a loader might use, several consumers
+		n = 64 + g.r.Intn(337)
+		l.consumers = 2 + g.r.Intn(15)
+	}
 	used := map[string]bool{}
 	isDir := map[string]bool{}
 	for i := 0; i < n; i++ {
@@ -864,7 +870,11 @@ func (g *gen) layout(mode string) layout {
 		used[path] = true
 		// content: own namespace f<i>.…, plus (mode overlap) shared keys
 		m := map[string]string{}
-		for j, c := 0, g.r.Intn(4); j < c; j++ {
+		nkeys := g.r.Intn(4)
+		if large {
+			nkeys = 1 + g.r.Intn(2) // every file contributes keys of its own
+		}
+		for j := 0; j < nkeys; j++ {
 			m[fmt.Sprintf("f%d.%s", i, g.seg(false))] = g.text(5, mode == "percent")
 		}
 		switch mode {
@@ -1372,7 +1382,11 @@ func (o *oracle) loadAll() {
 	l := o.g.layout(mode)
 	o.hist["load:mode="+mode]++
 	o.hist[fmt.Sprintf("load:consumers=%02d", l.consumers)]++
-	o.hist[fmt.Sprintf("load:files=%02d-%02d", len(l.files)/10*10, len(l.files)/10*10+9)]++
+	if len(l.files) < 50 {
+		o.hist[fmt.Sprintf("load:files=%02d-%02d", len(l.files)/10*10, len(l.files)/10*10+9)]++
+	} else {
+		o.hist[fmt.Sprintf("load:files=%03d-%03d", len(l.files)/100*100, len(l.files)/100*100+99)]++
+	}
 	v, kc, fc := judgeLoad(l)
 	o.hist["load:keys-checked"] += kc
 	o.hist["load:foreign-keys-checked"] += fc
